@@ -50,6 +50,20 @@ def small_scope_trees(ctx):
     for x, y, z in itertools.product(atoms, repeat=3):
         for o1, o2 in (("and", "or"), ("or", "and"), ("and", "and"), ("or", "or")):
             yield [o2, [o1, ["m", x], ["m", y]], ["m", z]]
+    # group x group and group x atom on one variable (0, 1, 2 shared values)
+    groups = [f'os_name == "{p}" or os_name == "{q}"' for p, q in (("a", "b"), ("b", "ab"), ("a", "ab"), ("ab", ""), ("b", "a"))] + \
+             [f'os_name != "{p}" and os_name != "{q}"' for p, q in (("a", "b"), ("b", "ab"), ("a", ""), ("ab", ""), ("b", "a"))] + \
+             ['os_name == "a" or os_name == "b" or os_name == "ab"', 'os_name != "a" and os_name != "b" and os_name != "ab"']
+    for g1, g2 in itertools.product(groups, repeat=2):
+        yield ["and", ["m", g1], ["m", g2]]
+        yield ["or", ["m", g1], ["m", g2]]
+        yield ["or", ["and", ["m", g1], ["m", 'sys_platform == "x"']], ["and", ["m", g2], ["m", 'sys_platform == "y"']]]
+        yield ["and", ["or", ["m", g1], ["m", 'sys_platform == "x"']], ["or", ["m", g2], ["m", 'sys_platform == "y"']]]
+    for g in groups:
+        for x in atoms:
+            yield ["and", ["m", g], ["m", x]]
+            yield ["or", ["m", g], ["m", x]]
+            yield ["or", ["m", x], ["m", g]]
     pa = []
     for var, vals in (("python_version", ["3.7", "3.8", "3.10", "3"]), ("python_full_version", ["3.7.9", "3.8.0", "3.8"])):
         for v in vals:
